@@ -25,7 +25,12 @@ def Q(kind=None, space=None, side=None):
 
 def elem(q):
     k, s, d = q
+    if k == "pcounts":
+        return Q("pcount", s, d)
     return Q("state", s, d) if k in ("states", "dist") else TOP
+
+
+ITERABLE = ("states", "dist", "pcounts")
 
 
 SIM = "lightworks/emulator/simulation/simulator.py"
@@ -129,6 +134,10 @@ class Analysis:
             if key not in bad_nodes:
                 self.res.ok(rule, f"{fi.qualname}:{src(node)[:50]}", fi.site(node), fi.qualname, what)
         return n
+
+
+def _ends(body) -> bool:
+    return bool(body) and isinstance(body[-1], (ast.Return, ast.Raise, ast.Continue, ast.Break))
 
 
 class Walker:
@@ -245,14 +254,17 @@ class Walker:
             qs = [self.q(x) for x in e.elts]
             if qs and all(x[0] == "state" for x in qs):
                 return Q("states", qs[0][1], qs[0][2])
+            if qs and all(x[0] == "pcount" for x in qs) and len({x[1] for x in qs}) == 1:
+                return Q("pcounts", qs[0][1], None)
             return TOP
         if isinstance(e, (ast.ListComp, ast.GeneratorExp)):
-            g = e.generators[0]
             w = self.child()
-            itq = self.q(g.iter)
-            w.bind(g.target, elem(itq) if itq[0] in ("states", "dist") else TOP)
-            for c in g.ifs:
-                w.q(c)
+            itq = TOP
+            for g in e.generators:
+                itq = w.q(g.iter)
+                w.bind(g.target, elem(itq) if itq[0] in ITERABLE else TOP)
+                for c in g.ifs:
+                    w.q(c)
             qe = w.q(e.elt)
             if qe[0] == "state":
                 return Q("states", qe[1], qe[2])
@@ -316,6 +328,9 @@ class Walker:
             if n[1] and p[1] and n[1] != p[1] and not (n[1] == "PAD" and p[1] == "FULL") and p[0] == "pcount" and n[0] == "mcount":
                 self.rep(e, "B2-fock-basis-spaces", f"fock_basis enumerates {n[1]}-space modes with a photon number counted in {p[1]} space (herald photons {'included' if p[1] == 'FULL' else 'missing'})")
             return Q("states", n[1], None)
+        if fname == "range" and args:
+            b = self.q(args[-1] if len(args) <= 2 else args[1])
+            return Q("pcounts", b[1], None) if b[0] == "pcount" else TOP
         if fname == "len" and args:
             b = self.q(args[0])
             return Q("mcount", b[1]) if b[0] == "state" else TOP
@@ -437,7 +452,13 @@ class Walker:
             self.A.fieldq[self.field(target.attr)] = q
 
     def run(self, stmts):
-        for s in stmts:
+        for i, s in enumerate(stmts):
+            if isinstance(s, ast.If) and not s.orelse and _ends(s.body) and stmts[i + 1:]:
+                # `if T: ...; return` followed by the rest == `if T: ... else: rest` (path-aware)
+                syn = ast.If(test=s.test, body=s.body, orelse=list(stmts[i + 1:]))
+                ast.copy_location(syn, s)
+                self.run([syn])
+                return
             if isinstance(s, ast.Assign):
                 q = self.q(s.value)
                 for t in s.targets:
@@ -468,7 +489,7 @@ class Walker:
                     elif ".items()" in its and it[0] == "dist" and isinstance(s.target, ast.Tuple):
                         self.bind(s.target.elts[0], elem(it))
                     else:
-                        self.bind(s.target, elem(it) if it[0] in ("states", "dist") else TOP)
+                        self.bind(s.target, elem(it) if it[0] in ITERABLE else TOP)
                     self.run(s.body)
                 self.run(s.orelse)
             elif isinstance(s, ast.If):
@@ -486,6 +507,10 @@ class Walker:
                     for k, v in list(w2.env.items()):
                         if v != self.env.get(k) and isinstance(v, tuple) and len(v) == 3 and v[0] == "state" and v[1] == "FULL":
                             w2.env[k] = Q("state", "VIS", v[2])
+                if _ends(s.body) and s.orelse:
+                    w1.env = dict(w2.env)
+                elif s.orelse and _ends(s.orelse):
+                    w2.env = dict(w1.env)
                 for k in set(w1.env) | set(w2.env):
                     a, b = w1.env.get(k, TOP), w2.env.get(k, TOP)
                     self.env[k] = a if a == b or b == TOP or (w2.noheralds and a[0] == b[0]) else (b if a == TOP else a)
